@@ -25,7 +25,8 @@ impl Project {
         }
     }
     pub fn file(mut self, name: &str, text: &str) -> Project {
-        self.files.insert(name.to_string(), text.as_bytes().to_vec());
+        self.files
+            .insert(name.to_string(), text.as_bytes().to_vec());
         self
     }
     pub fn with_toml(mut self, t: &str) -> Project {
@@ -147,10 +148,28 @@ fn lib_body(rng: &mut Rng, prefix: &str, n_syms: usize) -> (String, Vec<String>)
             continue;
         }
         match rng.below(4) {
-            0 => s.push_str(&format!(".const {} = ${:04x}\n", name, 0x400 + rng.below(0x4000))),
-            1 => s.push_str(&format!("{}: {{\n    lda #{}\n    sta $d020\n    rts\n}}\n", name, rng.below(256))),
-            2 => s.push_str(&format!("{}:\n    .byte {}, {}, {}\n", name, rng.below(256), rng.below(256), rng.below(256))),
-            _ => s.push_str(&format!("{}:\n    ldx #{}\n    {{\n        dex\n        bne -\n    }}\n    rts\n", name, 1 + rng.below(40))),
+            0 => s.push_str(&format!(
+                ".const {} = ${:04x}\n",
+                name,
+                0x400 + rng.below(0x4000)
+            )),
+            1 => s.push_str(&format!(
+                "{}: {{\n    lda #{}\n    sta $d020\n    rts\n}}\n",
+                name,
+                rng.below(256)
+            )),
+            2 => s.push_str(&format!(
+                "{}:\n    .byte {}, {}, {}\n",
+                name,
+                rng.below(256),
+                rng.below(256),
+                rng.below(256)
+            )),
+            _ => s.push_str(&format!(
+                "{}:\n    ldx #{}\n    {{\n        dex\n        bne -\n    }}\n    rts\n",
+                name,
+                1 + rng.below(40)
+            )),
         }
         syms.push(name);
     }
@@ -202,7 +221,9 @@ pub fn gen_hash_project(rng: &mut Rng, k: u64) -> Project {
                 // labels sharing one address (stacked), nested scopes with equal names, a test, conditional code
                 main.push_str("stacked_a:\nstacked_b:\nstacked_c: nop\nouter: {\n    same: nop\n    inner: {\n        same: nop\n    }\n}\n");
                 main.push_str(".const FLAG = 1\n.if defined(FLAG) {\n    in_if: nop\n} else {\n    in_else: brk\n}\n");
-                main.push_str(".test \"t1\" {\n    t_label: lda #1\n    .assert cpu.a == 1\n    brk\n}\n");
+                main.push_str(
+                    ".test \"t1\" {\n    t_label: lda #1\n    .assert cpu.a == 1\n    brk\n}\n",
+                );
             }
             if rng.chance(1, 2) {
                 // the same library once more, under a namespace
@@ -223,7 +244,9 @@ pub fn gen_hash_project(rng: &mut Rng, k: u64) -> Project {
         1 => {
             p.label = format!("gen{}:undefined", k);
             let n_undef = rng.range(1, 3);
-            let undef: Vec<String> = (0..n_undef).map(|i| format!("missing_{}", NAMES[i])).collect();
+            let undef: Vec<String> = (0..n_undef)
+                .map(|i| format!("missing_{}", NAMES[i]))
+                .collect();
             main.push_str("start:\n");
             for _ in 0..rng.range(2, 6) {
                 let u = rng.pick(&undef).clone();
@@ -250,10 +273,22 @@ pub fn gen_hash_project(rng: &mut Rng, k: u64) -> Project {
             main.push_str("start:\n    rts\n");
             for i in 0..n_libs {
                 main.push_str(&format!(".import * from \"lib{}.asm\"\n", i));
-                let bad = ["    lda #\n", "    .byte ,\n", "    sta (\n", "foo bar baz\n", ".const = 3\n"];
-                { let b: &str = *rng.pick(&bad[..]); lib_texts[i].push_str(b); }
+                let bad = [
+                    "    lda #\n",
+                    "    .byte ,\n",
+                    "    sta (\n",
+                    "foo bar baz\n",
+                    ".const = 3\n",
+                ];
+                {
+                    let b: &str = *rng.pick(&bad[..]);
+                    lib_texts[i].push_str(b);
+                }
                 if rng.chance(1, 2) {
-                    { let b: &str = *rng.pick(&bad[..]); lib_texts[i].push_str(b); }
+                    {
+                        let b: &str = *rng.pick(&bad[..]);
+                        lib_texts[i].push_str(b);
+                    }
                 }
             }
         }
@@ -296,11 +331,23 @@ pub fn gen_hash_project(rng: &mut Rng, k: u64) -> Project {
             p.toml = p.toml.replace("output-format = \"prg\"\n", "");
             // sometimes the banks go to their own files (two banks may share one file)
             let (f1, f2) = match rng.below(6) {
-                0 => ("    filename = \"hdr.bin\"\n", "    filename = \"main.bin\"\n"),
-                1 => ("    filename = \"both.bin\"\n", "    filename = \"both.bin\"\n"),
+                0 => (
+                    "    filename = \"hdr.bin\"\n",
+                    "    filename = \"main.bin\"\n",
+                ),
+                1 => (
+                    "    filename = \"both.bin\"\n",
+                    "    filename = \"both.bin\"\n",
+                ),
                 // the sub directory does not exist: both files fail to be created
-                2 => ("    filename = \"roms/hdr.bin\"\n", "    filename = \"roms/main.bin\"\n"),
-                3 => ("    filename = \"hdr.bin\"\n", "    filename = \"roms/main.bin\"\n"),
+                2 => (
+                    "    filename = \"roms/hdr.bin\"\n",
+                    "    filename = \"roms/main.bin\"\n",
+                ),
+                3 => (
+                    "    filename = \"hdr.bin\"\n",
+                    "    filename = \"roms/main.bin\"\n",
+                ),
                 _ => ("", ""),
             };
             main.push_str(&format!(".define bank {{\n    name = \"hdr\"\n    size = 16\n    fill = 0\n    create-segment = true\n{}}}\n.define bank {{\n    name = \"main\"\n{}}}\n", f1, f2));
@@ -341,13 +388,23 @@ pub fn gen_hash_project(rng: &mut Rng, k: u64) -> Project {
             p.label = format!("gen{}:unsettled", k);
             p.toml = p.toml.replace("output-format = \"prg\"\n", "");
             let n_seg = rng.range(2, 4);
-            let names: Vec<String> = (0..n_seg).map(|i| format!("s{}", NAMES[i % NAMES.len()])).collect();
+            let names: Vec<String> = (0..n_seg)
+                .map(|i| format!("s{}", NAMES[i % NAMES.len()]))
+                .collect();
             let chained = rng.chance(1, 3);
             for (i, n) in names.iter().enumerate() {
                 if chained && i > 0 {
-                    main.push_str(&format!(".define segment {{\n    name = \"{}\"\n    start = segments.{}.end\n}}\n", n, names[i - 1]));
+                    main.push_str(&format!(
+                        ".define segment {{\n    name = \"{}\"\n    start = segments.{}.end\n}}\n",
+                        n,
+                        names[i - 1]
+                    ));
                 } else {
-                    main.push_str(&format!(".define segment {{\n    name = \"{}\"\n    start = ${:x}\n}}\n", n, 0x1000 * (i + 1)));
+                    main.push_str(&format!(
+                        ".define segment {{\n    name = \"{}\"\n    start = ${:x}\n}}\n",
+                        n,
+                        0x1000 * (i + 1)
+                    ));
                 }
             }
             // how many of the segments take part in the dependency ring (>= 2 unless a label oscillates instead)
@@ -356,8 +413,16 @@ pub fn gen_hash_project(rng: &mut Rng, k: u64) -> Project {
                 main.push_str(&format!(".segment \"{}\" {{\n", n));
                 if i < ring {
                     let other = &names[(i + 1) % ring];
-                    let base = if chained { 0x1000 } else { 0x1000 * (((i + 1) % ring) + 1) };
-                    main.push_str(&format!("    .if segments.{}.end > ${:x} {{ nop }} else {{ nop\n    nop }}\n", other, base + 1));
+                    let base = if chained {
+                        0x1000
+                    } else {
+                        0x1000 * (((i + 1) % ring) + 1)
+                    };
+                    main.push_str(&format!(
+                        "    .if segments.{}.end > ${:x} {{ nop }} else {{ nop\n    nop }}\n",
+                        other,
+                        base + 1
+                    ));
                 } else {
                     main.push_str("    nop\n");
                 }
@@ -386,7 +451,9 @@ pub fn gen_hash_project(rng: &mut Rng, k: u64) -> Project {
             }
             let broken = rng.chance(1, 2);
             if broken {
-                main.push_str("    put(ghost, 1)\n    put(ghost, ghost2)\n    put(ghost2, ghost)\n");
+                main.push_str(
+                    "    put(ghost, 1)\n    put(ghost, ghost2)\n    put(ghost2, ghost)\n",
+                );
             }
             main.push_str(".loop 3 {\n    lda #index\n    sta $0400 + index\n}\n    rts\n");
             for i in 0..n_libs {
@@ -410,7 +477,10 @@ pub fn gen_hash_project(rng: &mut Rng, k: u64) -> Project {
         }
         for t in lib_texts.iter_mut() {
             for j in 0..n {
-                *t = t.replace(&format!("\"lib{}.asm\"", j), &format!("\"../d{}/lib.asm\"", j));
+                *t = t.replace(
+                    &format!("\"lib{}.asm\"", j),
+                    &format!("\"../d{}/lib.asm\"", j),
+                );
             }
             *t = t.replace("\"common.asm\"", "\"../common.asm\"");
         }
